@@ -20,12 +20,14 @@
 //
 // Obs: agree=<t|f> ref=<t|f> ct=<len>:<first 24 bytes hex> dec=<ok:len:checksum|err> wrong=<o|x|r>
 //
-//	mods=<one of o|x|r per modification, or -> match=<t|f><t|f>
+//	mods=<one of o|x|r per modification, or -> back=<ok:len:checksum|err> match=<t|f>x4
 //
 // agree  Encrypt under a.Ecdh(pub b) and under b.Ecdh(pub a) with the same nonce give the same bytes
 // ref    …and the same bytes as a box keyed with sha256(X((a*b mod N)·G)) computed independently
 // o = decrypts to the original plaintext, x = decrypts to something else, r = rejected
-// match  IsKeyMatching(pub(a), c), IsKeyMatching(pub(a), a)
+// back   what b encrypts (same nonce) is decrypted by a
+// match  IsKeyMatching(pub(a), c), IsKeyMatching(pub(a), a), IsKeyMatching(pub(b), c), IsKeyMatching(pub(c), a)
+// The public keys travel in a wire form chosen by nonce[0] mod 3: compressed, uncompressed, hybrid.
 package main
 
 import (
@@ -65,6 +67,20 @@ func scalarHex(v *big.Int) string {
 		return "-"
 	}
 	return hex.EncodeToString(v.Bytes())
+}
+
+// scalarEnc is scalarHex with occasional non-canonical encodings (leading zero bytes, "00" for 0).
+func scalarEnc(r *hx.Rng, v *big.Int) string {
+	h := scalarHex(v)
+	if r.Chance(1, 10) {
+		if h == "-" {
+			return strings.Repeat("00", r.Range(1, 3))
+		}
+		if len(h) < 80 {
+			return strings.Repeat("00", r.Range(1, 3)) + h
+		}
+	}
+	return h
 }
 
 func randScalar(r *hx.Rng) *big.Int {
@@ -150,7 +166,16 @@ func gen(r *hx.Rng, n int, tier string) []string {
 			pt = fmt.Sprintf("g%d.%d", ptLen, r.Intn(256))
 		}
 		ctLen := 24 + 16 + ptLen
-		nonce := hex.EncodeToString(r.Bytes(24))
+		nb := r.Bytes(24)
+		switch r.Intn(20) {
+		case 0:
+			nb = make([]byte, 24)
+		case 1:
+			nb = bytes.Repeat([]byte{0xff}, 24)
+		case 2:
+			nb = append([]byte{byte(r.Intn(3))}, make([]byte, 23)...)
+		}
+		nonce := hex.EncodeToString(nb)
 		var mods []string
 		if ctLen <= 72 && r.Chance(1, 3) {
 			// every single byte of a short ciphertext
@@ -185,7 +210,7 @@ func gen(r *hx.Rng, n int, tier string) []string {
 				}
 			}
 		}
-		ops = append(ops, fmt.Sprintf("ec %s %s %s %s %s %s", scalarHex(a), scalarHex(b), scalarHex(c), pt, nonce, hx.JoinStrs(mods)))
+		ops = append(ops, fmt.Sprintf("ec %s %s %s %s %s %s", scalarEnc(r, a), scalarEnc(r, b), scalarEnc(r, c), pt, nonce, hx.JoinStrs(mods)))
 	}
 	return ops
 }
@@ -343,9 +368,18 @@ func exec(op string) (string, string) {
 
 	a, b, c := ephemeral.UnmarshalPrivateKey(ab), ephemeral.UnmarshalPrivateKey(bb), ephemeral.UnmarshalPrivateKey(cb)
 	// public keys travel in their wire form, as in the protocols
-	pubA, errA := ephemeral.UnmarshalPublicKey(pubOf(a).Marshal())
-	pubB, errB := ephemeral.UnmarshalPublicKey(pubOf(b).Marshal())
-	tags := []string{}
+	wire := func(p *ephemeral.PublicKey) []byte {
+		switch nonce[0] % 3 {
+		case 1:
+			return (*btcec.PublicKey)(p).SerializeUncompressed()
+		case 2:
+			return (*btcec.PublicKey)(p).SerializeHybrid()
+		}
+		return p.Marshal()
+	}
+	pubA, errA := ephemeral.UnmarshalPublicKey(wire(pubOf(a)))
+	pubB, errB := ephemeral.UnmarshalPublicKey(wire(pubOf(b)))
+	tags := []string{[]string{"wire-compressed", "wire-uncompressed", "wire-hybrid"}[nonce[0]%3]}
 	if errA != nil || errB != nil {
 		// a scalar = 0 mod N has no public key encoding (point at infinity): not a key pair
 		pubA, pubB = pubOf(a), pubOf(b)
@@ -433,8 +467,18 @@ func exec(op string) (string, string) {
 	} else {
 		obs = append(obs, "mods="+string(ms))
 	}
+	back, err := ka.Decrypt(append([]byte{}, ct2...))
+	if err != nil {
+		obs = append(obs, "back=err")
+	} else {
+		obs = append(obs, fmt.Sprintf("back=ok:%d:%d", len(back), checksum(back)))
+	}
 	m1, m2 := pubA.IsKeyMatching(c), pubA.IsKeyMatching(a)
-	obs = append(obs, "match="+tf(m1)+tf(m2))
+	m3, m4 := pubB.IsKeyMatching(c), pubOf(c).IsKeyMatching(a)
+	obs = append(obs, "match="+tf(m1)+tf(m2)+tf(m3)+tf(m4))
+	if m3 {
+		tags = append(tags, "match-b-true")
+	}
 	if m1 {
 		tags = append(tags, "match-true")
 	} else {
